@@ -12,7 +12,9 @@ Lexemes == { <<112, 114, 105, 110, 116>>, <<120, 49>>, <<52, 50>>, <<48, 120, 49
              <<34, 97, 92, 34, 98, 34>>, <<34, 195, 169, 34>>, <<61, 61>>, <<33, 61>>, <<60, 61>>, <<45, 62>>, <<61>>, <<45>>,
              <<32>>, <<10>>, <<13, 10>>, <<194, 160>>, <<194, 133>>, <<35, 99, 195, 169, 10>>, <<35, 99>>, <<59>>, <<40>>,
              <<49, 97>>, <<34, 97>>, <<33>>, <<226, 130, 172>>, <<49, 46>>, <<118, 97, 114>>, <<34, 92, 120, 52, 49, 34>>,
-             <<35, 226, 130, 172, 13>>, <<123>>, <<125>> }
+             <<35, 226, 130, 172, 13>>, <<123>>, <<125>>,
+             <<35, 99, 13, 52, 50, 10>>,
+             <<34, 97, 92>> }                              \* an unterminated string ending in a backslash: the escape takes the next character, a line end too                  \* a comment ended by a bare CR with a token before the next LF
 RECURSIVE Split(_, _, _)
 Split(bs, cuts, from) ==
   IF cuts = {} THEN << SubSeq(bs, from + 1, Len(bs)) >>
